@@ -3025,6 +3025,8 @@ class Set(Collection):
         setdata = obj._vals_.get(attr)
         if setdata is None or not setdata.is_fully_loaded: setdata = attr.load(obj)
         reverse = attr.reverse
+        if reverse.is_collection and attr.py_type._subclasses_:
+            attr.py_type._load_many_(setdata)  # items of many-to-many collection can be seeds of the base class
         if not reverse.is_collection and reverse.pk_offset is None:
             added = setdata.added or ()
             for item in setdata:
